@@ -58,3 +58,105 @@ theorem block_step (pre ys post : List Nat) (x : Nat) (hnd : (pre ++ ys ++ post)
   simp [hnotin]
 
 end BS.Heap
+
+namespace BS.Heap
+
+theorem idxOf?_append_cons_of_not_mem : ∀ (l₁ l₂ : List Nat) (x : Nat), x ∉ l₁ →
+    (l₁ ++ x :: l₂).idxOf? x = some l₁.length := by
+  intro l₁
+  induction l₁ with
+  | nil => intro l₂ x _; simp [List.idxOf?_cons]
+  | cons a l ih =>
+    intro l₂ x hx
+    have hax : a ≠ x := fun h => hx (by simp [h])
+    have hxl : x ∉ l := fun h => hx (by simp [h])
+    simp only [List.cons_append, List.idxOf?_cons, beq_iff_eq, hax, if_false, ih l₂ x hxl]
+    simp
+
+theorem good_kids_nodup {h : Heap} (hg : Good h) (n : Nat) : (h.kids n).Nodup := by
+  obtain ⟨w, hwf⟩ := hg
+  have ht := hwf.tiles n
+  generalize h.kids n = ks at ht
+  generalize w.pos n + 1 = s at ht
+  generalize w.pos n + w.size n = e at ht
+  induction ks generalizing s with
+  | nil => exact List.nodup_nil
+  | cons a l ih =>
+    obtain ⟨ha, ha1, hr⟩ := ht
+    refine List.nodup_cons.mpr ⟨?_, ih _ hr⟩
+    intro hm
+    have := tiles_mem _ _ _ _ _ hr a hm
+    omega
+
+theorem filter_erase_nodup {l : List Nat} (hnd : l.Nodup) (x : Nat) (xs : List Nat) :
+    (l.erase x).filter (fun k => !xs.contains k) = l.filter (fun k => !(x :: xs).contains k) := by
+  rw [List.Nodup.erase_eq_filter hnd, List.filter_filter]
+  apply List.filter_congr
+  intro k _
+  simp only [List.contains_cons, Bool.not_or]
+  cases hkx : k == x <;> simp_all [bne]
+
+section contig
+variable (hE : ExtractSpec) (hL : LinkChildSpec)
+include hE hL
+
+/-- **Contiguity of a multi-element insertion.** If `p`'s children are `pre ++ ys ++ post`, the running
+    position stands right after the block `ys`, and the distinct elements `xs` (none of them in `ys`) are inserted
+    by the loop of `Tag.insert`, then afterwards `p`'s children are `pre' ++ ys ++ xs ++ post'`, where `pre'`,
+    `post'` are `pre`, `post` without the elements of `xs`: the inserted elements are contiguous, in the requested
+    order, right where the block was, and the other children keep their order. -/
+theorem insertElems_contiguous {p : Nat} : ∀ (xs : List Nat) (h : Heap) (pos : Nat) (h' : Heap) (pos' : Nat)
+    (pre ys post : List Nat),
+    Good2 h → (h.kind p).isTag = true → xs.Nodup → (∀ x ∈ xs, h.kind x ≠ .soup) → (∀ x ∈ xs, x ∉ ys) →
+    h.kids p = pre ++ ys ++ post → pos = (pre ++ ys).length →
+    insertElems h p pos xs = .ok (h', pos') →
+    h'.kids p = pre.filter (fun k => !xs.contains k) ++ (ys ++ xs) ++ post.filter (fun k => !xs.contains k) ∧
+    pos' = (pre.filter (fun k => !xs.contains k) ++ (ys ++ xs)).length := by
+  intro xs
+  induction xs with
+  | nil =>
+    intro h pos h' pos' pre ys post _ _ _ _ _ hk hpos hi
+    simp only [insertElems] at hi; cases hi
+    have ft : ∀ l : List Nat, l.filter (fun _ => true) = l := fun l => List.filter_eq_self.mpr (fun _ _ => rfl)
+    simp [hk, hpos, ft]
+  | cons x xs ih =>
+    intro h pos h' pos' pre ys post hg hp hnd hkx hxy hk hpos hi
+    simp only [insertElems] at hi
+    cases hc : insertCore h p pos x with
+    | error e => simp only [hc] at hi; cases hi
+    | ok h1 =>
+      simp only [hc] at hi
+      obtain ⟨hg1, hk1⟩ := insertCore_good2 hE hL hg hp (hkx x (by simp)) hc
+      obtain ⟨hshape, _, _⟩ := insertCore_shape hE hL hg.1 hp (hkx x (by simp)) hc
+      have hndk : (pre ++ ys ++ post).Nodup := by rw [← hk]; exact good_kids_nodup hg.1 p
+      obtain ⟨hb1, hb2⟩ := block_step pre ys post x hndk (hxy x (by simp))
+      rw [hk, hpos] at hshape
+      rw [hb1] at hshape
+      -- the index of x in the new list
+      have hnotin : x ∉ pre.erase x ++ ys := by
+        intro hm
+        rcases List.mem_append.mp hm with h1' | h1'
+        · have hndp : pre.Nodup := (List.nodup_append.mp (List.nodup_append.mp hndk).1).1
+          exact ((List.Nodup.mem_erase_iff hndp).mp h1').1 rfl
+        · exact hxy x (by simp) h1'
+      have hidx : indexOf h1 p x = some (pre.erase x ++ ys).length := by
+        unfold indexOf
+        rw [hshape]
+        rw [show pre.erase x ++ (ys ++ [x]) ++ post.erase x = (pre.erase x ++ ys) ++ x :: post.erase x by simp]
+        exact idxOf?_append_cons_of_not_mem _ _ _ hnotin
+      simp only [hidx] at hi
+      have hndpre : pre.Nodup := (List.nodup_append.mp (List.nodup_append.mp hndk).1).1
+      have hndpost : post.Nodup := (List.nodup_append.mp hndk).2.1
+      have := ih h1 _ h' pos' (pre.erase x) (ys ++ [x]) (post.erase x) hg1 (by rw [hk1.1 p]; exact hp)
+        (List.nodup_cons.mp hnd).2
+        (fun y hy hs => hkx y (by simp [hy]) ((hk1.2 y).mp hs))
+        (fun y hy hm => by
+          rcases List.mem_append.mp hm with h1' | h1'
+          · exact hxy y (by simp [hy]) h1'
+          · simp only [List.mem_singleton] at h1'; subst h1'; exact (List.nodup_cons.mp hnd).1 hy)
+        hshape (by simp only [List.length_append, List.length_cons, List.length_nil]; omega) hi
+      rw [filter_erase_nodup hndpre, filter_erase_nodup hndpost] at this
+      refine ⟨by rw [this.1]; simp, by rw [this.2]; simp⟩
+
+end contig
+end BS.Heap
